@@ -83,7 +83,7 @@ class C13(BtProp):
     keep_events = "EUXY"
     keep_own = False
     keep_cur = True
-    quick_n, thorough_n = 300, 6000
+    quick_n, thorough_n = 2500, 40000
     rule = ("random small trees x edit operations (prune / insert at indices -2..len+1 / replace, targeting every kind of "
             "node id incl. the root, children of decorators and unknown ids) between any two ticks of random schedules, "
             "followed by further ticks; result, structure, interruption of the removed subtree, absence of internal "
